@@ -167,6 +167,16 @@ def report(machine: Any, prop: str, tier: str, seed: int, recs: list[dict], t0: 
             path = os.path.join(HERE, "replays", f"{prop}-{r['seed']}.json")
             with open(path, "w") as fh:
                 json.dump(msc, fh, indent=1, sort_keys=False, default=repr)
+            # replaying the file in a fresh interpreter must reproduce the violation exactly
+            import subprocess
+
+            env = {k: v for k, v in os.environ.items() if k != "PYTHONHASHSEED"}
+            cp = subprocess.run([sys.executable, os.path.join(HERE, "checkmain.py"), "replay", path],
+                                capture_output=True, text=True, env=env, timeout=300)
+            if cp.returncode != 1 or "same_class_as_recorded=True" not in cp.stdout:
+                harness.append({"index": r["index"], "seed": r["seed"], "harness": "non-replayable",
+                                "detail": "replay file did not reproduce in a fresh interpreter: " + cp.stdout[-300:]})
+                continue
             new_violations.append((r, mv, path))
 
     # ---- known findings: replay witnesses
